@@ -28,7 +28,7 @@ def flow_scripts(rng, n):
         if rng.random() < 0.3:
             evs.append(ev(m + 1, t + rng.choice([0, 30, 200]), act=rng.choice(["quit", "gquit"])))
         out.append(script("f%05d" % k, evs, "flow", cap=rng.choice([1, 2, 4, 4096]),
-                          ecap=rng.choice([1, 64]), throttle=rng.choice([0, 30, 50]), sync=sync))
+                          ecap=64, throttle=rng.choice([0, 30, 50]), sync=sync))
     return out
 
 
